@@ -28,6 +28,98 @@ fn eval_one(src: &str) -> String {
     }
 }
 
+/// Deterministic SmallMap scenarios against a Vec model (witness search for C11 obligations).
+fn map_check(map: &starlark_map::small_map::SmallMap<u32, u32>, model: &Vec<(u32, u32)>, what: &str) -> Result<(), String> {
+    if map.len() != model.len() {
+        return Err(format!("{what}: len {} vs model {}", map.len(), model.len()));
+    }
+    for (i, (k, v)) in model.iter().enumerate() {
+        if map.get_index_of(k) != Some(i) {
+            return Err(format!("{what}: get_index_of({k}) = {:?}, model {i}", map.get_index_of(k)));
+        }
+        if map.get(k) != Some(v) {
+            return Err(format!("{what}: get({k}) = {:?}, model {v}", map.get(k)));
+        }
+        if map.get_index(i) != Some((k, v)) {
+            return Err(format!("{what}: get_index({i}) differs"));
+        }
+    }
+    let it: Vec<(u32, u32)> = map.iter().map(|(k, v)| (*k, *v)).collect();
+    if &it != model {
+        return Err(format!("{what}: iteration order differs"));
+    }
+    if map.get(&1_000_000).is_some() {
+        return Err(format!("{what}: absent key found"));
+    }
+    Ok(())
+}
+
+fn map_scenarios() -> Result<usize, String> {
+    use starlark_map::small_map::SmallMap;
+    let mut count = 0;
+    for n in [0usize, 1, 2, 5, 15, 16, 17, 18, 31, 32, 33, 34, 40] {
+        let fresh = |n: usize| {
+            let mut m = SmallMap::new();
+            let mut model = Vec::new();
+            for k in 0..n as u32 {
+                m.insert(k * 7 + 1, k);
+                model.push((k * 7 + 1, k));
+            }
+            (m, model)
+        };
+        // remove each position by key, then by index
+        for pos in 0..n {
+            let (mut m, mut model) = fresh(n);
+            let k = model[pos].0;
+            let got = m.shift_remove(&k);
+            let want = Some(model.remove(pos).1);
+            if got != want {
+                return Err(format!("n={n} shift_remove(pos {pos}) returned {:?}, model {:?}", got, want));
+            }
+            map_check(&m, &model, &format!("n={n} after shift_remove(pos {pos})"))?;
+            m.insert(999, 5);
+            model.push((999, 5));
+            map_check(&m, &model, &format!("n={n} after shift_remove(pos {pos}) + insert"))?;
+            let (mut m, mut model) = fresh(n);
+            m.shift_remove_index(pos);
+            model.remove(pos);
+            map_check(&m, &model, &format!("n={n} after shift_remove_index({pos})"))?;
+            count += 3;
+        }
+        // clear and reuse
+        let (mut m, mut model) = fresh(n);
+        m.clear();
+        model.clear();
+        map_check(&m, &model, &format!("n={n} after clear"))?;
+        for k in 0..n as u32 {
+            if m.insert(k * 7 + 1, k + 100).is_some() {
+                return Err(format!("n={n} insert after clear reported an old value"));
+            }
+            model.push((k * 7 + 1, k + 100));
+        }
+        map_check(&m, &model, &format!("n={n} after clear + reinsert"))?;
+        // pop, reverse, retain, sort
+        let (mut m, mut model) = fresh(n);
+        if m.pop() != model.pop() {
+            return Err(format!("n={n} pop differs"));
+        }
+        map_check(&m, &model, &format!("n={n} after pop"))?;
+        m.reverse();
+        model.reverse();
+        map_check(&m, &model, &format!("n={n} after reverse"))?;
+        m.retain(|k, _| k % 3 != 0);
+        model.retain(|(k, _)| k % 3 != 0);
+        map_check(&m, &model, &format!("n={n} after retain"))?;
+        m.sort_keys();
+        model.sort();
+        map_check(&m, &model, &format!("n={n} after sort_keys"))?;
+        m.maybe_drop_index();
+        map_check(&m, &model, &format!("n={n} after maybe_drop_index"))?;
+        count += 7;
+    }
+    Ok(count)
+}
+
 fn first_line(s: &str) -> String {
     s.lines().next().unwrap_or("").to_owned()
 }
@@ -52,6 +144,11 @@ fn main() {
                 }
             }
         }
+        Some("mapops") => match std::panic::catch_unwind(map_scenarios) {
+            Ok(Ok(n)) => println!("OK {} scenarios agree with the list model", n),
+            Ok(Err(e)) => println!("DIFF {}", e),
+            Err(_) => println!("PANIC in a SmallMap scenario (see stderr for the location)"),
+        },
         Some("ticks") => {
             // verif_replay ticks <src> [budget] -> "OK ticks=<n>" | "ERR <msg> ticks=<n>"
             let src = args[2].clone();
